@@ -63,7 +63,10 @@ TsPerts == {"none", "u_add", "u_id", "v_add", "v_neg", "v_id", "msg", "pk_other"
 
 \* ------------------------------------------------------------ system
 Quiet == [act |-> "-"]
-NoSes == [k |-> 0, scheme |-> "", m |-> <<>>, y |-> ""]
+NoSes == [k |-> 0, scheme |-> "", m |-> <<>>, y |-> "", f |-> 0]
+\* instants inside a millisecond (microseconds past the model clock): the stamp is the *truncated* reading and the
+\* age is a whole number of milliseconds, so no verdict depends on them
+Fracs == {0, 999}
 NZKeys == Keys \ {0}
 OtherKey(k) == CHOOSE k2 \in NZKeys : k2 # k
 OtherMsg(m) == CHOOSE m2 \in MsgRs : m2 # m
@@ -113,15 +116,15 @@ AReuse(k, s, mr) ==
   /\ phase' = "judged" /\ UNCHANGED <<ses, clock>>
 
 \* timestamp variant: generation stamps the clock; Tick; verification with a timeout
-AGenerateTs(k, s, mr) ==
+AGenerateTs(k, s, mr, f) ==
   /\ phase = "idle"
-  /\ ses' = [k |-> k, scheme |-> s, m |-> mr, y |-> "ts"]
+  /\ ses' = [k |-> k, scheme |-> s, m |-> mr, y |-> "ts", f |-> f]
   /\ clock' = T0 /\ last' = Quiet /\ phase' = "stamped"
 
 ATick(d) == phase = "stamped" /\ clock = T0 /\ clock' = T0 + d /\ UNCHANGED <<phase, ses>> /\ last' = Quiet
 
-AVerifyTs(pert, tau) ==       \* tau = -1 : no timeout
-  /\ phase = "stamped"
+AVerifyTs(pert, tau, g) ==       \* tau = -1 : no timeout; g = microseconds past the verifier's millisecond
+  /\ phase = "stamped" /\ (pert = "none" \/ g = 0)
   /\ LET k == ses.k   s == ses.scheme   pk == PkOf(k)   m == DenMsg(ses.m)
          sig == Sign(SkOf(k), s, m).v
          u == Commit(s, pk, m)
@@ -145,6 +148,7 @@ AVerifyTs(pert, tau) ==       \* tau = -1 : no timeout
          s2 == IF pert \in {"label", "cross_forge"} THEN OtherScheme(s) ELSE s
          r == VerifyTs(u2, v2, pk2, y2, s2, m2, ts, clock, tau) IN
        last' = [act |-> "PokTs", k |-> k, scheme |-> s, msg |-> ses.m, pert |-> pert, delay |-> clock - T0, tau |-> tau,
+                genfrac |-> ses.f, verfrac |-> g,
                 k2 |-> OtherKey(k), msg2 |-> OtherMsg(ses.m), scheme2 |-> OtherScheme(s),
                 expect |-> [res |-> r.t, err |-> r.e]]
   /\ phase' = "judged" /\ UNCHANGED <<ses, clock>>
@@ -156,9 +160,9 @@ Delays == {0} \cup UNION {{t - 1, t, t + 1, 100 * t + 7} : t \in {x \in Taus \ {
 Next ==
   \/ (phase = "idle" /\ \E k \in NZKeys, s \in Schemes, mr \in MsgRs, yk \in YKinds, pert \in Perts : APok(k, s, mr, yk, pert))
   \/ (phase = "idle" /\ \E k \in NZKeys, s \in Schemes, mr \in MsgRs : AReuse(k, s, mr))
-  \/ (phase = "idle" /\ \E k \in NZKeys, s \in Schemes, mr \in MsgRs : AGenerateTs(k, s, mr))
+  \/ (phase = "idle" /\ \E k \in NZKeys, s \in Schemes, mr \in MsgRs, f \in Fracs : AGenerateTs(k, s, mr, f))
   \/ (phase = "stamped" /\ \E d \in Delays \ {0} : ATick(d))
-  \/ (phase = "stamped" /\ \E pert \in TsPerts, tau \in Taus : AVerifyTs(pert, tau))
+  \/ (phase = "stamped" /\ \E pert \in TsPerts, tau \in Taus, g \in Fracs : AVerifyTs(pert, tau, g))
   \/ AReset
 
 Spec == Init /\ [][Next]_vars
